@@ -20,6 +20,10 @@ LEVEL = "proof"
 SALT = 15
 
 
+LONG_LEXEMES = {r"[α-ω]+": "αβγ" * 20, r'"[^"]*"': '"' + "é" * 40 + '"', r"[A-Z]\w*": "X" + "éa" * 30,
+                r"[a-z]+": "ab" * 40, r"\d+": "1234567890" * 7}
+
+
 def garbage_inputs(rng, n):
     out = ["", " ", "\n", "\x00", "𝄞", "é" * 7, "a" * 14, "((((((((", "\t\t\n\n", "a b", "﻿a"]
     while len(out) < n:
@@ -42,10 +46,19 @@ def run(rep, tier, seed):
                       flags=dict(ps=0, pse=1, ms=1, lm=1, go=1, partial=0, skipws=1, match=1), meta=dict(shape=hang_g.shape, bi=-1)))
     texts_all.append([("a", "valid", None), ("a b", "valid", None)])
     glr_cases = []
-    for c in cases:
-        glr_cases.append(Case(c.id + "_glr", c.grammar, [t for t in c.inputs if len(t) <= 32], algo="GLR", table="LALR_RN", run="GLR",
+    for ci, c in enumerate(cases):
+        # long tokens of multi-byte characters (lexemes of more than 50 bytes): one per regex terminal that admits them
+        longs = []
+        if ci < len(bgl):
+            for t, (kind, txt, _, _) in bgl[ci].lex.items():
+                if kind == "R" and txt in LONG_LEXEMES:
+                    longs.append(LONG_LEXEMES[txt])
+                    longs.append(LONG_LEXEMES[txt] + " " + LONG_LEXEMES[txt])
+        # seq=1: the harness also parses the whole list with ONE GlrParser instance (RESULT GLRS)
+        glr_cases.append(Case(c.id + "_glr", c.grammar, [t for t in c.inputs if len(t) <= 32] + longs[:4], algo="GLR",
+                              table="LALR_RN", run="GLR",
                               flags=dict(ps=0, pse=0, ms=c.flags["ms"], lm=c.flags["lm"], go=rng.random() < 0.5,
-                                         partial=0, skipws=c.flags["skipws"], noforest=1), meta=c.meta))
+                                         partial=0, skipws=c.flags["skipws"], noforest=1, seq=1), meta=c.meta))
     # ---- part 2: custom lexers that ignore the expected set (token-level grammars, one-letter terminals)
     cust_cases = []
     tg = [g for g in GR.corpus() if not g.meta][:14]
@@ -105,7 +118,7 @@ def run(rep, tier, seed):
             else:
                 n_glr_tables += 1
 
-    n_runs = n_nontrivial = 0
+    n_runs = n_nontrivial = n_glr_seq = 0
     acyclic_false = 0
     outcome_kinds = {}
     samples = []
@@ -185,6 +198,27 @@ def run(rep, tier, seed):
                 classify(k, r, text, out, "GLR", None)
             else:
                 n_nontrivial += 1
+        # ONE GlrParser instance over the whole list must return for every input what a fresh parser returns
+        fresh = [str(r.results.get(("GLR", i), "")).split(" ")[0] for i in range(len(r.case.inputs))]
+        if all(f in ("FOREST", "ERR") for f in fresh):
+            for i, text in enumerate(r.case.inputs):
+                o = r.results.get(("GLRS", i))
+                if o is None:
+                    continue
+                n_glr_seq += 1
+                ko = o.split(" ")[0]
+                if ko == "PANIC":
+                    rep.violation("glr-reused-parser-panics", "a GlrParser instance that parsed other inputs before panics",
+                                  dict(grammar=r.case.grammar, algo="GLR", table="LALR_RN", flags=r.case.flags, input=text,
+                                       sequence=r.case.inputs[:i + 1],
+                                       panic=unhx(o.split(" ")[1]).decode(errors="replace") if len(o.split(" ")) > 1 else ""))
+                    break
+                if (ko == "OK") != (fresh[i] == "FOREST"):
+                    rep.violation("glr-reused-parser-differs", "a GlrParser instance that parsed other inputs before answers "
+                                  "differently from a fresh parser",
+                                  dict(grammar=r.case.grammar, algo="GLR", table="LALR_RN", flags=r.case.flags, input=text,
+                                       sequence=r.case.inputs[:i + 1], fresh=r.results.get(("GLR", i)), reused=o))
+                    break
     # custom lexers: real outcome == run_lex with the Gallina mirror of the harness lexer
     cjobs = []
     cust_items = [r for r in cresults if r.status == "OK" and r.dump is not None and r.dump.conflicts == 0]
@@ -255,7 +289,7 @@ def run(rep, tier, seed):
         obligations=nthm + nval, discharged=(pt.get("closed", 0) if not rep.violations else 0) + nval,
         checker_cmd="make -C coq Properties/C15.vo ; coqc work/c15v_*.v (vm_compute of safe_b, reduce_acyclic_b)",
         trusted_base=TRUSTED_BASE, theorems=pt.get("theorems", []),
-        programs=len(items), evaluations=n_runs, distinct_nontrivial=n_nontrivial, glr_tables_passing_safe_rn_b=n_glr_tables,
+        programs=len(items), evaluations=n_runs, distinct_nontrivial=n_nontrivial, glr_tables_passing_safe_rn_b=n_glr_tables, glr_reused_parser_results_compared=n_glr_seq,
         rule="byte-level grammars (string/regex terminals, Layout rules) x rendered sentences/non-sentences + garbage "
              "UTF-8 strings (control characters, multi-byte scalars, empty, long repeats) through the real LRParser and "
              "GlrParser under catch_unwind + watchdog; custom lexers `all` (context-free: tries every terminal) and "
